@@ -455,10 +455,15 @@ def run_check(pid, tier, seed, cfg, a, t0, log):
 def summarise(files, pid=None):
     ops, out = files
     s = {"cases": 0, "ops": 0, "distinct": set(), "nontrivial": 0, "viol": [], "disagree": [], "samples": [],
-         "spec_model_false": 0, "known_hits": {}, "known_cases": {}}
+         "spec_model_false": 0, "known_hits": {}, "known_cases": {}, "unsupported": {}}
     for c in zip_results(ops, out):
         s["cases"] += 1
         s["ops"] += len(c.ops)
+        for mo in c.model:
+            # a model may answer `unsupported:<why>|…` for an input outside what it covers: counted, never guessed
+            if mo.startswith("unsupported:"):
+                why = mo.split("|", 1)[0]
+                s["unsupported"][why] = s["unsupported"].get(why, 0) + 1
         k = hashlib.sha1(c.key().encode()).digest()
         if k not in s["distinct"]:
             s["distinct"].add(k)
@@ -509,6 +514,9 @@ def verdict(pid, tier, seed, cfg, obligations, discharged, problems, s, stats, t
         desc = next((f.get("what", "") for f in known_findings() if f["key"] == key), "")
         print("KNOWN-FINDING: property=%s %s [%s]" % (pid, desc, key))
     extra = {"known_findings_seen": sorted(known_seen), "known_finding_cases": s.get("known_hits", {})}
+    if s.get("unsupported"):
+        extra["model_unsupported_skips"] = dict(sorted(s["unsupported"].items()))
+        extra["model_unsupported_total"] = sum(s["unsupported"].values())
 
     def pred_violates(r):
         return r.violates() and classify_known(pid, r) is None
